@@ -5,6 +5,7 @@
 //! stdin, one case per line:   <id> <mode> <desc> ; <op> <op> ...
 //!   mode: ex | f64 | f32 (f32 values are printed widened to f64 bits)
 //!   op:   u<i>=<val>   update instance i, then observe last() and the buffer population
+//!         v<i>=<val>   update instance i, then observe last() only (no Debug dump)
 //!         q<i>=<val>   update instance i without observing (prints `-`; `E` if it failed)
 //!         l<i>         observe last() of instance i
 //!         c<i>         clone instance i (the clone gets the next free index)
@@ -417,8 +418,9 @@ fn run_case<T: Scalar>(desc: &str, ops: &[&str]) -> String {
             continue;
         }
         match kind {
-            "u" | "q" => {
+            "u" | "q" | "v" => {
                 let quiet = kind == "q";
+                let nopop = kind == "v";
                 let tok = val.unwrap();
                 let x = if let Some(h) = tok.strip_prefix('x') {
                     T::from_bits_token(u64::from_str_radix(h, 16).unwrap())
@@ -439,6 +441,8 @@ fn run_case<T: Scalar>(desc: &str, ops: &[&str]) -> String {
                             inst[idx] = None;
                         } else if quiet {
                             out.push('-');
+                        } else if nopop {
+                            out.push_str(&s);
                         } else {
                             let pop = population(&v.dbg());
                             out.push_str(&format!("{s}@{pop}"));
